@@ -257,6 +257,10 @@ def crash_config(case):
 def _cfg(case, **kw):
     t = case["target"]
     c = {"kind": case["kind"], "impl": case["impl"], "tk": t["tk"] if t["tk"] != "lib" else "lib_" + t["lib"]}
+    if t["tk"] == "lib":
+        for k in ("name", "form", "shape", "ptype", "mtype", "order", "noise", "ntype"):
+            if t.get(k) is not None:
+                c[k] = t[k]
     c.update(kw)
     return c
 
@@ -534,6 +538,8 @@ def check_lib_evaluations(ctx, cfg, tgt, rec):
         with np.errstate(all="ignore"):
             if kind == "G":
                 want = np.asarray(ref.grad(x), dtype=float)
+                if not np.all(np.isfinite(want)):
+                    continue
                 ctx.count("target_values_checked")
                 if not R.same_point(np.asarray(v, float), want, rtol=1e-8, atol=1e-10 * (1.0 + float(np.max(np.abs(want))) if np.all(np.isfinite(want)) else 1.0)):
                     ctx.violation("target_evaluation_mismatch", dict(cfg, what="gradient"),
@@ -667,7 +673,7 @@ def run_chain(impl, tgt, rs, x0, max_depth, eps, T, r_script=None, e_script=None
                 else:
                     s.sample(n_tot)
             extra = {"Nb": Nb}
-    eps_list = [float(e) for e in getattr(s, "epsilon_list", [])]
+    eps_list = [_tofloat(e) for e in getattr(s, "epsilon_list", [])]
     trs = cut_transitions(sc.draws, stream.marks, rec.events, tgt.dim)
     x0_changed = not np.array_equal(np.array(x0_obj, dtype=float), x0_used, equal_nan=True)
     states_changed = sum(1 for a in after if not np.array_equal(np.array(a["obj"], dtype=float), a["x"], equal_nan=True))
@@ -1413,23 +1419,20 @@ def _warmup_eps(ctx, cfg, impl, tgt, rs, md, Nb):
     if impl == "legacy":
         s = cuqi.sampler.NUTS(target, x0=x0, max_depth=md, adapt_step_size=True)
         s.sample(4, Nb)
-        el = [float(e) for e in s.epsilon_list]
-        eps = el[-1]
-        ctx.count("warmup_eps_constant_checked")
-        if any(e != eps for e in el[Nb + 1:]):
-            ctx.violation("step_size_changes_after_warmup", cfg, detail=f"step sizes after warm-up: {el[Nb:]}")
     else:
         s = cuqi.experimental.mcmc.NUTS(target, initial_point=x0, max_depth=md)
         s.warmup(Nb)
         s.sample(4)
-        el = [float(e) for e in s.epsilon_list]
-        eps = el[-1]
-        ctx.count("warmup_eps_constant_checked")
-        if any(e != eps for e in el[Nb + 1:]):
-            ctx.violation("step_size_changes_after_warmup", cfg, detail=f"step sizes after warm-up: {el[Nb:]}")
-    if not (math.isfinite(eps) and eps > 0):
-        ctx.violation("step_size_invalid", cfg, detail=f"warm-up produced the step size {eps}")
+    el = [_tofloat(e) for e in s.epsilon_list]
+    eps = el[-1]
+    if eps is None or not (math.isfinite(eps) and eps > 0):
+        bad = next((i for i, e in enumerate(el) if e is None or not math.isfinite(e)), len(el) - 1)
+        ctx.violation("step_size_invalid", cfg, detail=f"warm-up produced the step size {eps}; step sizes around the first invalid one "
+                      f"(iteration {bad + 1}): {el[max(0, bad - 3):bad + 2]}")
         return None
+    ctx.count("warmup_eps_constant_checked")
+    if any(e != eps for e in el[Nb + 1:]):
+        ctx.violation("step_size_changes_after_warmup", cfg, detail=f"step sizes after warm-up: {el[Nb:]}")
     return eps
 
 # ----------------------------------------------------------------------------------------- entry points
